@@ -42,6 +42,7 @@ type FuncContract struct {
 	Trusted     bool // contract assumed; body not verified
 	TrustReason string
 	Loops       map[int][]Clause
+	LoopEntry   map[int][]Clause // checked when the loop is entered only (not an invariant)
 	CallAsserts map[string][]Clause // key "callee#k"
 	Crash       []Clause            // crash invariants: asserted after every durable write
 	Observe     []Clause            // named entry-state expressions reported in counterexample models
@@ -160,7 +161,7 @@ func parseContracts(text string) (c *Contracts, err error) {
 		kw, rest := splitFirst(it.text)
 		switch kw {
 		case "func", "interface", "extern":
-			fc := &FuncContract{Kind: kw, Loops: map[int][]Clause{}, CallAsserts: map[string][]Clause{}, Line: it.line}
+			fc := &FuncContract{Kind: kw, LoopEntry: map[int][]Clause{}, Loops: map[int][]Clause{}, CallAsserts: map[string][]Clause{}, Line: it.line}
 			parseFuncHeader(fc, rest, it.line)
 			if _, dup := c.Funcs[fc.Key]; dup {
 				panic(parseErr(fmt.Sprintf("line %d: duplicate contract for %s", it.line, fc.Key)))
@@ -290,12 +291,21 @@ func parseContracts(text string) (c *Contracts, err error) {
 		case "loop":
 			// loop N invariant label: expr
 			f := strings.Fields(rest)
-			if len(f) < 3 || f[1] != "invariant" {
-				panic(parseErr(fmt.Sprintf("line %d: expected 'loop N invariant label: expr'", it.line)))
+			if len(f) < 3 || (f[1] != "invariant" && f[1] != "entry") {
+				panic(parseErr(fmt.Sprintf("line %d: expected 'loop N invariant|entry label: expr'", it.line)))
 			}
 			n, e := strconv.Atoi(f[0])
 			if e != nil {
 				panic(parseErr(fmt.Sprintf("line %d: bad loop ordinal", it.line)))
+			}
+			if f[1] == "entry" {
+				r := strings.TrimSpace(rest[strings.Index(rest, "entry")+len("entry"):])
+				lab, src := splitLabel(r)
+				if lab == "" {
+					lab = fmt.Sprintf("L%d", it.line)
+				}
+				cur.LoopEntry[n] = append(cur.LoopEntry[n], Clause{Label: lab, Src: src, E: parseExpr(src, it.line), Line: it.line})
+				continue
 			}
 			r := strings.TrimSpace(rest[strings.Index(rest, "invariant")+len("invariant"):])
 			lab, src := splitLabel(r)
